@@ -373,7 +373,9 @@ func predict(inv cliInv) (expect map[string]fileExpect, stdout [][]byte, stdoutF
 			if corrupt {
 				anyFail = true
 				lenientStdout = true
-			} else {
+			} else if !lenientStdout {
+				// (after a corrupt member nothing more is predicted: gxz may already have
+				// written any part of that member's decoded bytes when it notices the damage)
 				stdout = append(stdout, m.Plain)
 			}
 			unchanged()
@@ -579,8 +581,9 @@ func checkC15(c *ev.Ctx) {
 					all = append(all, w...)
 				}
 				if lenientOut {
-					if !bytes.HasPrefix(rest, all) && !bytes.HasPrefix(all, rest) {
-						viol("stdout-content", "standard output of -dc run does not start with the expected data")
+					// all = the output of the members before the first corrupt one
+					if !bytes.HasPrefix(rest, all) {
+						viol("stdout-content", fmt.Sprintf("standard output of -dc run (%d bytes) does not start with the %d bytes of the members before the corrupt one", len(rest), len(all)))
 					}
 				} else if !bytes.Equal(rest, all) {
 					viol("stdout-content", fmt.Sprintf("standard output holds %d bytes, want %d (first difference %d)", len(rest), len(all), firstDiff(rest, all)))
